@@ -20,7 +20,9 @@ CONSTANTS B,          \* internal buffer size (frames)
           OwnTime,    \* TRUE: allow speed changes scheduled on the clock's own time (known finding D11)
           Racy,       \* TRUE: on_start_processing reads its three command slots in separate steps (yield point cmd.r)
                       \*       and a stop() may fall between them
-          ResetFirst  \* TRUE: the reset slot is read before the ticking slot (the code after fix D24); FALSE: before the fix
+          ResetFirst, \* TRUE: the reset slot is read before the ticking slot (the code after fix D26); FALSE: before the fix
+          WriteResetFirst  \* FALSE: stop() writes set_ticking(false), then reset (the code); TRUE: the other way round (a variant
+                           \* kept for its counterexample: the read order above relies on this write order)
 
 VARIABLES cst, qt, ticking, speed,
           pSpeed, pTick, pReset, ownPend,   \* command slots; speed tweens waiting for the clock's own time
@@ -95,13 +97,15 @@ StopBegin ==
   /\ act' = <<"StopBegin">> /\ ev' = [a |-> "cmd", c |-> "stop_begin", v |-> 0, w |-> 0]
   /\ UNCHANGED <<cst, qt, ticking, speed, pSpeed, pTick, pReset, ownPend, pDelay, tw, shT, shF, shTicking, apc, acbN, rpc, rT, sched, firedNow, cb, nrd>>
 StopW1 ==
-  /\ spc = "w0" /\ spc' = "w1" /\ pTick' = "off"
+  /\ spc = "w0" /\ spc' = "w1"
+  /\ IF WriteResetFirst THEN pReset' = TRUE /\ UNCHANGED pTick ELSE pTick' = "off" /\ UNCHANGED pReset
   /\ act' = <<"StopW1">> /\ ev' = [a |-> "tau"]
-  /\ UNCHANGED <<cst, qt, ticking, speed, pSpeed, pReset, ownPend, pDelay, tw, shT, shF, shTicking, apc, acbN, rpc, rT, sched, firedNow, ncmd, cb, nrd>>
+  /\ UNCHANGED <<cst, qt, ticking, speed, pSpeed, ownPend, pDelay, tw, shT, shF, shTicking, apc, acbN, rpc, rT, sched, firedNow, ncmd, cb, nrd>>
 StopW2 ==
-  /\ spc = "w1" /\ spc' = "idle" /\ pReset' = TRUE /\ shT' = 0 /\ shF' = 0
+  /\ spc = "w1" /\ spc' = "idle" /\ shT' = 0 /\ shF' = 0
+  /\ IF WriteResetFirst THEN pTick' = "off" /\ UNCHANGED pReset ELSE pReset' = TRUE /\ UNCHANGED pTick
   /\ act' = <<"StopW2">> /\ ev' = [a |-> "cmd", c |-> "stop_end", v |-> 0, w |-> 0]
-  /\ UNCHANGED <<cst, qt, ticking, speed, pSpeed, pTick, ownPend, pDelay, tw, shTicking, apc, acbN, rpc, rT, sched, firedNow, ncmd, cb, nrd>>
+  /\ UNCHANGED <<cst, qt, ticking, speed, pSpeed, ownPend, pDelay, tw, shTicking, apc, acbN, rpc, rT, sched, firedNow, ncmd, cb, nrd>>
 
 Sched(id, w) ==
   /\ Len(sched) < MaxSched /\ id = Len(sched) + 1 /\ apc = "idle" /\ rpc = "idle"
